@@ -65,6 +65,7 @@ type access struct {
 	Held  string
 	Pos   token.Pos
 	Fn    string
+	Entry string
 }
 
 type State struct {
@@ -97,6 +98,7 @@ type State struct {
 	steps     int
 	retDirty  bool // the frame popped last had written to memory older than itself
 	recycled  []int // backing arrays handed back to a sync.Pool
+	clockReads int
 }
 
 func newState() *State {
@@ -133,6 +135,7 @@ func (s *State) clone() *State {
 		steps:     s.steps,
 		retDirty:  s.retDirty,
 		recycled:  s.recycled,
+		clockReads: s.clockReads,
 	}
 	if s.panicking != nil {
 		pi := *s.panicking
